@@ -173,6 +173,9 @@ func init() {
 			if c.n%5 == 0 {
 				spec = directedLifecycle(c.n/5, c.rng)
 			}
+			if c.n%4 == 3 {
+				spec.MW = 1 + c.rng.Intn(2) // the lifecycle must hold for actors with middleware as well
+			}
 			out := runScript(c, spec)
 			if out.sim.restarts == 0 && !out.sim.stopped {
 				out.res.Sig = ""
@@ -305,7 +308,7 @@ func c05Spec(g c05Case, r *rand.Rand) *scriptSpec {
 	spec.Segments = buildSegments(ids, body, msgs(ids, 2))
 	if g.late {
 		spec.LateFor = body[g.pos[0]].ID
-		spec.Late = msgs(ids, 2)
+		spec.Late = msgs(ids, 2+r.Intn(30))
 		if spec.RestartDelay == 0 {
 			spec.RestartDelay = 300 * time.Microsecond
 		}
@@ -334,6 +337,9 @@ func init() {
 			grid := c05Grid(c.tier)
 			g := grid[c.n%len(grid)]
 			spec := c05Spec(g, c.rng)
+			if c.n%4 == 3 {
+				spec.MW = 1 + c.rng.Intn(2)
+			}
 			out := runScript(c, spec)
 			out.res.Sig = sigHash("c05", g.L, g.pos, g.handler, g.inbox, g.late, g.nested)
 			out.res.Desc = fmt.Sprintf("L=%d crash@%v handler=%s nested=%d inbox=%d late=%v :: %s", g.L, g.pos, g.handler, g.nested, g.inbox, g.late, spec.String())
@@ -482,6 +488,9 @@ func init() {
 			grid := c06Grid(c.tier)
 			g := grid[c.n%len(grid)]
 			spec := c06Spec(g, c.rng)
+			if c.n%4 == 3 {
+				spec.MW = 1 + c.rng.Intn(2)
+			}
 			out := runScript(c, spec)
 			out.res.Sig = sigHash("c06", g)
 			out.res.Desc = fmt.Sprintf("%+v :: %s", g, spec.String())
